@@ -21,7 +21,14 @@ fn usage() -> ! {
     std::process::exit(2);
 }
 
+/// Everything runs on a thread with a very large (lazily committed) stack: the H2 hook functions and the runtime's own
+/// recursive helpers recurse once per nesting level, and the deep-nesting document families nest 100000 levels.
 fn main() {
+    let h = std::thread::Builder::new().name("vf-main".into()).stack_size(8usize << 30).spawn(real_main).expect("spawn main thread");
+    match h.join() { Ok(()) => {} Err(_) => std::process::exit(97) }
+}
+
+fn real_main() {
     let args: Vec<String> = std::env::args().collect();
     if args.len() < 2 { usage(); }
     match args[1].as_str() {
@@ -90,6 +97,23 @@ fn main() {
             // probe <lang> <text>: print the explicit tree with indices (debugging aid)
             let z = zoo::by_name(&args[2]).expect("zoo language");
             let l = lang::build(&z.spec, tree_sitter_generate::OptLevel::default()).expect("build");
+            // text "@<file>": read the document from a file and only report timing and size
+            if let Some(path) = args[3].strip_prefix('@') {
+                let text = std::fs::read(path).expect("document file");
+                let mut p = tree_sitter::Parser::new();
+                p.set_language(&l.language).unwrap();
+                let t0 = std::time::Instant::now();
+                let t = p.parse(&text, None).unwrap();
+                println!("parse: {:.2}s, {} bytes, root has_error={} descendants={}", t0.elapsed().as_secs_f64(), text.len(), t.root_node().has_error(), t.root_node().descendant_count());
+                if std::env::var("VF_PROBE_SEXP").is_ok() { let t3 = std::time::Instant::now(); let sx = t.root_node().to_sexp(); println!("to_sexp: {:.2}s, {} bytes", t3.elapsed().as_secs_f64(), sx.len()); }
+                let t1 = std::time::Instant::now();
+                let xt = xtree::XTree::build(&t);
+                println!("explicit tree: {:.2}s, {} nodes", t1.elapsed().as_secs_f64(), xt.nodes.len());
+                let t2 = std::time::Instant::now();
+                drop(t);
+                println!("tree release: {:.2}s", t2.elapsed().as_secs_f64());
+                return;
+            }
             let text = args[3].replace("\\n", "\n");
             let mut p = tree_sitter::Parser::new();
             p.set_language(&l.language).unwrap();
@@ -99,7 +123,33 @@ fn main() {
             for (i, n) in xt.nodes.iter().enumerate() {
                 println!("{}#{} {} {}", "  ".repeat(n.depth as usize), i, l.language.node_kind_for_id(n.kind_id).unwrap_or("?"), xt.brief(i));
             }
-            if args.len() > 4 { println!("{}", xtree::internal_dump(&t)); }
+            if args.len() > 4 && args[4] == "dump" { println!("{}", xtree::internal_dump(&t)); }
+            // probe <lang> <text> query <source>: also run a query and print every match
+            if args.len() > 5 && args[4] == "query" {
+                use streaming_iterator::StreamingIterator;
+                match tree_sitter::Query::new(&l.language, &args[5]) {
+                    Err(e) => println!("query rejected: {:?}", e),
+                    Ok(q) => {
+                        let mut cur = tree_sitter::QueryCursor::new();
+                        let mut ms = cur.matches(&q, t.root_node(), text.as_bytes());
+                        while let Some(m) = ms.next() {
+                            let caps: Vec<String> = m.captures.iter().map(|c| format!("{}=#{}", q.capture_names()[c.index as usize], xt.nodes.iter().position(|n| n.id == c.node.id()).map(|i| i as i64).unwrap_or(-1))).collect();
+                            println!("match pattern {}: {}", m.pattern_index, caps.join(" "));
+                        }
+                    }
+                }
+            }
+        }
+        "probe-grammar" => {
+            // probe-grammar <grammar.json> <text> [noopt]: build an arbitrary grammar and print the tree (debugging aid)
+            let gj = std::fs::read_to_string(&args[2]).expect("grammar file");
+            let name = serde_json::from_str::<serde_json::Value>(&gj).unwrap()["name"].as_str().unwrap().to_string();
+            let opt = if args.len() > 4 && args[4] == "noopt" { tree_sitter_generate::OptLevel::empty() } else { tree_sitter_generate::OptLevel::default() };
+            let l = lang::build(&lang::LangSpec { name, grammar_json: gj, scanner_c: None }, opt).expect("build");
+            let mut p = tree_sitter::Parser::new();
+            p.set_language(&l.language).unwrap();
+            let text = args[3].replace("\\n", "\n");
+            println!("{}", p.parse(text.as_bytes(), None).unwrap().root_node().to_sexp());
         }
         _ => usage(),
     }
